@@ -1,5 +1,74 @@
+import os, re, json, concurrent.futures
+import vlib
+
+TOK_STAT = {0: "slices do not tile", 1: "tree_ok", 2: "ghost walk fails (templated side out of reading order / changed non-literal leaf / text in a dropped meta)",
+            3: "root templated slice is not the whole templated text", 4: "patches not sorted/disjoint/duplicate-free", 5: "a patch is not aligned with a literal slice"}
+TOK_OBS = {0: "observed fine", 1: "failed: fused-with-neighbour", 2: "failed: empty value", 3: "failed: patches out of order", 4: "failed: other", 5: "not observed"}
+
+
+def post(ctx):
+    """Monitor of the premise of C04_templated: evaluate Corr.C04.tok_stat (tiling + tree_ok) by vm_compute on every
+    recorded templated final tree ('tok' lines of the harness), count, and compare with what was observed on the
+    implementation: premise true and the observation failed in a class other than the regex-side one = a finding (or a
+    model bug) with a concrete input."""
+    toks = [r for r in ctx.get("recs", []) if r.get("t") == "tok"]
+    if not toks:
+        return
+    shard = 40
+    items = []
+    for k in range(0, len(toks), shard):
+        name = "Tok_C04_%d.v" % (k // shard)
+        body = ["From Sq Require Import Base.Corr Corr.C04.", "Open Scope N_scope.",
+                "Definition cases : list tok_args := [", ";\n".join(t["args"] for t in toks[k:k + shard]), "].",
+                "Eval vm_compute in map tok_stat cases."]
+        items.append((name, "\n".join(body) + "\n", toks[k:k + shard]))
+    os.makedirs(vlib.GEN, exist_ok=True)
+    for name, text, _ in items:
+        open(os.path.join(vlib.GEN, name), "w").write(text)
+    stats, errors = {}, []
+    with concurrent.futures.ThreadPoolExecutor(max_workers=16) as ex:
+        futs = {ex.submit(vlib.run_coqc, os.path.join("gen", it[0]), 900): it for it in items}
+        for fut in concurrent.futures.as_completed(futs):
+            name, _, ts = futs[fut]
+            rc, out = fut.result()
+            blocks = vlib.parse_N_list(out)
+            if rc != 0 or len(blocks) != 1 or len(blocks[0]) != len(ts):
+                errors.append("%s: rc=%d %s" % (name, rc, out[-1200:]))
+                continue
+            for t, st in zip(ts, blocks[0]):
+                t["stat"] = st
+    for f in os.listdir(vlib.GEN):
+        if f.startswith("Tok_C04_") and not f.endswith(".v"):
+            os.remove(os.path.join(vlib.GEN, f))
+    R = ctx["R"]
+    for e in errors:
+        R.violation("broken-correspondence", dict(what="tree_ok monitor did not evaluate", log=e), False)
+    done = [t for t in toks if "stat" in t]
+    table = {}
+    for t in done:
+        k = "%s | %s" % (TOK_STAT.get(t["stat"], t["stat"]), TOK_OBS.get(t["obs"], t["obs"]))
+        table[k] = table.get(k, 0) + 1
+    n_ok = sum(1 for t in done if t["stat"] == 1)
+    with_p = [t for t in done if t.get("nontrivial")]
+    n_ok_p = sum(1 for t in with_p if t["stat"] == 1)
+    bad = [t for t in done if t["stat"] == 1 and t["obs"] in (2, 3, 4)]
+    missed = [t for t in done if t["stat"] != 1 and t["obs"] == 0]
+    for t in bad[:3]:
+        R.violation("failing-input", dict(what="tiling + tree_ok hold (premise of C04_templated) but the implementation's fixed file lost a "
+                                               "placeholder or does not re-render to the final tree's raw: %s" % TOK_OBS.get(t["obs"]),
+                                          cls=t["cls"], sample=t["sample"]), True)
+    ctx["extra_evaluations"] = ctx.get("extra_evaluations", 0) + len(done)
+    ctx.setdefault("extra_coverage", {})["tree_ok_monitor"] = dict(
+        templated_final_trees=len(done), tree_ok_true=n_ok, with_patches=len(with_p), tree_ok_true_with_patches=n_ok_p,
+        premise_true_but_observation_failed=len(bad), premise_false_but_observation_fine=len(missed),
+        by_verdict_and_observation=table,
+        examples_premise_false_observation_fine=[dict(stat=TOK_STAT.get(t["stat"]), input=t["sample"].get("input")) for t in missed[:3]])
+    vlib.log("C04 tree_ok monitor: %d templated final trees, tree_ok %d (%d of %d with patches); premise true but failed: %d; table %s"
+             % (len(done), n_ok, n_ok_p, len(with_p), len(bad), json.dumps(table, sort_keys=True)))
+
+
 CFG = dict(
-    prop="C04", level="proof", harness="c04",
+    prop="C04", level="proof", harness="c04", post=post,
     props_files=["theories/Props/C04.v"], corr_file="theories/Corr/C04.v", corr_module="Corr.C04",
     groups={"tree": False, "patches": False, "span": False},
     show_fn={"tree": "model", "patches": "model_patches", "span": "model_span"},
@@ -13,16 +82,26 @@ CFG = dict(
     level_text="C04_fix_string_spec (fix_string = splice of the normalised patches, for every patch list), "
                "C04_normalise_id, C04_untemplated (for every final tree whose root spans an untemplated file: fixed text = raw of "
                "the tree), C04_unchanged and C04_templated_keeps_partial (source ranges no patch touches survive) are closed Coq "
-               "theorems; C04_conflict_slices_complete / C04_conflict_verdict: over raw slices tiling the source every raw slice "
+               "theorems; C04_templated (templated clause at full strength about the model: for every slice list tiling source and templated "
+               "text and every final tree with the decidable tree_ok, the fixed text is literal pieces woven around ALL placeholders' source "
+               "texts, byte-identical and in order, and the tree's raw is the same pieces woven around their renderings = the fixed source "
+               "re-rendered), C04_templated_rerender (the same with Templ.Model.process in the loop: process on the fixed source, same values, "
+               "captures relocated with the same names, succeeds and renders the tree's raw), C04_templated_ghost / _tree_side (the ghost walk "
+               "behind tree_ok is iter_patches; templated images of a segment's patches splice to its raw); "
+               "C04_conflict_slices_complete / C04_conflict_verdict: over raw slices tiling the source every raw slice "
                "a source range overlaps is returned by raw_slices_spanning_source_slice, so a deletion/replacement reaching "
                "into a placeholder is a template conflict. The model is tied to the code on every run: the real final tree (fix-loop hook) and TemplatedFile are "
                "fed to the Gallina iter_patches/fix_string and must reproduce the real patch list and the real fix_string(); "
                "arbitrary patch lists with source-only slices are replayed against the real LintedFile::fix_string; the real "
                "raw_slices_spanning_source_slice (hook) is replayed against the Gallina spanning on the source ranges of every "
                "segment, ranges around every slice border and random ranges.",
-    level_note="The templated half of the property (re-rendering the fixed source gives the tree's raw, placeholders in order) is "
-               "decided by proof only up to C04_templated_keeps_partial (byte survival of untouched ranges under a monitored "
-               "sortedness premise); the re-rendering equality itself is observed directly on every templated run, not proved. "
+    level_note="The templated half is a theorem about the model under the premise tree_ok (ghost walk along iter_patches' branches succeeds, "
+               "root spans the templated text, patches sorted/disjoint/duplicate-free, every patch aligned with one literal slice or an insertion "
+               "at a slice border). That real final trees satisfy tree_ok is not proved (apply_fixes/position_segments and the conflict filter are "
+               "not modelled): it is evaluated by vm_compute on every recorded templated final tree (post stage, coverage.tree_ok_monitor) and "
+               "compared with the observation on the implementation - premise true with a lost placeholder / wrong re-render is reported as a "
+               "failing input. The regex engine's answer on the FIXED text (captures = the relocated ones) is a hypothesis of "
+               "C04_templated_rerender observed directly (templated-placeholders); it is what the known finding fused-with-neighbour breaks. "
                "fix_slices / templated_slice_to_source_slice (the window has_template_conflicts inspects) are not modelled: the "
                "filter's soundness (every fix that would delete/replace placeholder source or insert inside a placeholder's "
                "rendering is reported as a conflict) is a blocking monitor over synthetic fixes anchored at every segment x edit type. "
@@ -47,7 +126,10 @@ CFG = dict(
                  "templated failures are keyed by class when the outcome shows one of the recorded findings (placeholder fused with its "
                  "neighbour after a literal blank was removed; placeholder with an empty value swallowed; patches out of order after a "
                  "rule moved code) - see known_findings.txt; everything else is keyed per input",
+                 "tree_ok (premise of C04_templated) on real final trees is measured (coverage.tree_ok_monitor), not proved; the regex engine finding the "
+                 "relocated captures in the fixed text (hypothesis of C04_templated_rerender) is observed directly",
                  "tree correspondence cases are emitted for sources up to 2500 bytes; of the runs without any patch 1 in 4 is replayed in Coq (larger inputs are still observed directly)"],
     trusted_extra=["verif hooks: core.rs verif_hook::FixEvent (final tree, applied fixes), TemplatedFileInner::verif_raw_sliced_idx, "
-                   "TemplatedFileInner::verif_raw_slices_spanning"],
+                   "TemplatedFileInner::verif_raw_slices_spanning",
+                   "bin/propcfg/c04.py post stage (shard writer and parser of the tree_ok monitor; Gallina printer of the sliced file in harness/src/c04.rs)"],
 )
